@@ -71,8 +71,12 @@ def contract_for_property(c, pid):
     return c2
 
 
+_JOBS = {}
+
+
 def worker(job):
-    qualname, c, schema, pid, tier, only = job
+    # contracts may hold closures (not picklable): the job table is inherited through fork, only the key is sent
+    qualname, c, schema, pid, tier, only = _JOBS[job]
     out = dict(function=qualname, obligations=[], unsupported=[], paths=0, src_hash=None, assumptions=[], seconds=0.0, error=None, side_proofs=0)
     t0 = time.time()
     try:
@@ -116,6 +120,10 @@ def worker(job):
 def make_replay(ob, rep, c, qualname, schema):
     from pyvc import replay, source, core
 
+    if ob.model is not None and c.get("replay_hook") is not None:
+        res = c["replay_hook"](ob.model, c)
+        res["model_excerpt"] = str(ob.model)[:1500]
+        return replay.jsonable(res)
     if ob.model is None or not hasattr(ob, "replay_ctx") or ob.replay_ctx is None:
         return dict(verdict="no-model", detail="no model available from the back end")
     fi, env, mro_fn = ob.replay_ctx
@@ -181,7 +189,7 @@ def fuzz_search(ob, c, qualname, schema, n=150):
     import random
     from pyvc import replay, verify
 
-    if not hasattr(ob, "replay_ctx") or ob.replay_ctx is None or not hasattr(ob, "entry"):
+    if not hasattr(ob, "replay_ctx") or ob.replay_ctx is None or not hasattr(ob, "entry") or c.get("replay_hook") is not None:
         return None
     fi, env, mro_fn = ob.replay_ctx
     rng = random.Random(int(os.environ.get("VERIF_SEED", "0") or 0) + 17)
@@ -244,6 +252,8 @@ def main(argv=None):
         c2 = contract_for_property(c, pid)
         if c2 is None:
             continue
+        if tier not in c.get("tiers", ["quick", "thorough"]):
+            continue
         jobs.append((q, c2, schemas[c.get("schema", c["_module"])] if c.get("schema", c["_module"]) in schemas else schemas.get(c.get("schema")), pid, tier, args.only))
     results = []
     lemma_res = []
@@ -253,8 +263,11 @@ def main(argv=None):
 
         lemma_res = lemmas.prove_lemmas()
         ctx = mp.get_context("fork")
+        _JOBS.clear()
+        for j in jobs:
+            _JOBS[j[0]] = j
         with ctx.Pool(min(args.jobs, max(1, len(jobs)))) as pool:
-            results = pool.map(worker, jobs, chunksize=1)
+            results = pool.map(worker, [j[0] for j in jobs], chunksize=1)
     extra_results = []
     for modname, fn in extras.get(pid, []):
         try:
